@@ -149,6 +149,12 @@ def build_ops():
         "stop", 2, "stop", lambda ip, ctx, v: ([], {}), lambda ip, ctx, i: True,
         lambda ip, ctx, s, ts, idb, keyb, i: [sp(ip, "stop_frame", [s, ts, idb], ctx)], rejects=False)
 
+    # stop() is implemented on the common base class: it can also be called on a type-1 client (login of that client's kind, same frame)
+    ops["stop_on_type1"] = Op(
+        "stop_on_type1", 1, "stop", lambda ip, ctx, v: ([], {}), lambda ip, ctx, i: True,
+        lambda ip, ctx, s, ts, idb, keyb, i: [sp(ip, "stop_frame", [s, ts, idb], ctx)], rejects=False)
+    ops["stop_on_type1"].login_kind = 2
+
     def mk_pos(ip, ctx, v):
         pos = sym_int(ctx, "position", -99999999, 99999999)
         return [pos], {"position": pos}
@@ -198,7 +204,8 @@ def ops():
 
 
 def login_frame(ip, ctx, op, ts, idb, keyb):
-    if op.kind == 1:
+    # the login packet follows the OPERATION's device family (stop() logs in the Runner way whatever client it is called on)
+    if getattr(op, "login_kind", op.kind) == 1:
         return sp(ip, "login1_frame", [ts, keyb], ctx)
     return sp(ip, "login2_frame", [ts, idb], ctx)
 
@@ -234,7 +241,7 @@ def op_witness(prop, op, variant):
         exp = {"k": run["outcome"][0], "cls": ({"any_of": list(exc.alts)} if getattr(exc, "alts", None) else exc.cls) if exc else None,
                "nwrites": len(run["writes"]), "reads": run["reads"],
                "lens": [concretise(ip_len(w), model) for w in run["writes"]]}
-        return {"case": {"prop": prop, "kind": "op", "op": op.name, "api": op.kind, "inputs": inputs},
+        return {"case": {"prop": prop, "kind": "op", "op": op.method, "api": op.kind, "inputs": inputs},
                 "expect": {"k": "ret", "v": exp}}
     return wit
 
